@@ -10,7 +10,7 @@ import decode_sigs
 
 PROP = "C01"
 MODULE = "Proofs.C01"
-THEOREMS = []
+THEOREMS = ["Teakra.instrTable_agrees", "Teakra.instrTable_length", "Teakra.matchesWord_eq"]
 TRUSTED = ["hand-written model lean/TeakraModel/{Interp,Run,Exec/*}.lean of src/interpreter.h, tied by the `interp` correspondence slice",
            "tools/gen_dispatch.py (decode table -> dispatcher), harness/u_interp.cpp"]
 ASSUMPTIONS = []
@@ -95,12 +95,16 @@ def explore(rng, tier, replay=None):
             scripts.append(["interp gen %x" % seed] + variant(rng, j, x) + ["interp step %x %x" % (w, e)])
 
     def signature(script, impl):
+        if len(script) < 2 or len(script[-1].split()) < 3:
+            return []
         w = int(script[-1].split()[2], 16)
         var = script[1].split()[2] if len(script) > 2 else "plain"
         return [(keys[w][0], var, impl[-1].split(" ")[0] if impl else "?")]
 
     def judge(pair, script, impl, model):
         # verbose re-run to name the differing fields
+        if len(script) < 2:
+            return True, "(disagreement on a state-setting line)"
         s2 = script[:-1] + [script[-1].replace("interp step", "interp stepv")]
         a, b, _, _ = pair.run([s2], shards=1)
         why = field_diff(a[0][-1], b[0][-1])
@@ -112,7 +116,51 @@ def explore(rng, tier, replay=None):
                             "Teakra.cycle; distinct = (handler key, outcome class)",
                        extra={"unmodelled": sorted(missing), "modelled_handlers": info["modelled"],
                               "handlers": info["handlers"]})
+    # generator clause: every record the project's own generator emits, executed as the verifier sets it up
+    try:
+        g = generator_clause(tier)
+        ctx["generator_clause"] = g["stats"]
+        ctx["evaluations"] = ctx.get("evaluations", 0) + g["stats"].get("records", 0)
+        ctx["violations"] = ctx.get("violations", []) + g["violations"]
+    except Exception as ex:
+        ctx["violations"] = ctx.get("violations", []) + [("generator clause could not be evaluated: %s" % ex,
+                                                          {"kind": "error", "error": str(ex)}, False)]
     return ctx
+
+
+def generator_clause(tier):
+    """Run Teakra::Test::GenerateTestCasesToFile (real generator, real RNG) and execute every record on the
+    bare interpreter exactly as test_verifier does: no assertion abort, pc == length, data accesses only inside
+    the two compared windows.  Evaluated on the implementation itself (harness unit `gentest`)."""
+    import subprocess
+    exe = vlib.harness_build("plain")
+    os.makedirs(os.path.join(vlib.BUILD, "gen"), exist_ok=True)
+    runs = 1 if tier == "quick" else 4
+    tot = {}
+    violations = []
+    for k in range(runs):
+        path = os.path.join(vlib.BUILD, "gen", "tests_%d_%d.bin" % (os.getpid(), k))
+        p = subprocess.run([exe], input="gentest run %s ffffffff\n" % path, stdout=subprocess.PIPE,
+                           stderr=subprocess.PIPE, text=True, timeout=3600)
+        line = p.stdout.strip().split("\n")[-1] if p.stdout.strip() else ""
+        t = line.split()
+        if p.returncode != 0 or len(t) < 18 or t[0] != "records":
+            violations.append(("generator run died or gave no result: rc=%d %s %s" % (p.returncode, line[:200], p.stderr[-300:]),
+                               {"kind": "crash", "script": ["gentest run <path> ffffffff"], "stderr": p.stderr[-2000:]}, True))
+            continue
+        st = {t[i]: int(t[i + 1], 16) for i in range(0, 16, 2)}
+        for kk, v in st.items():
+            tot[kk] = tot.get(kk, 0) + v
+        first = " ".join(t[17:])
+        if st["assert"] or st["badpc"] or st["outside"] or st["oob"]:
+            violations.append(("a test vector emitted by the project's own generator violates the generator clause "
+                               "(assert=%d wrong-pc=%d outside-window=%d out-of-bounds=%d of %d records); first: %s"
+                               % (st["assert"], st["badpc"], st["outside"], st["oob"], st["records"], first),
+                               {"kind": "generator", "first": first, "stats": st,
+                                "script": ["gentest run <path> ffffffff"]}, True))
+    tot["generator_runs"] = runs
+    tot["rng"] = "std::random_device inside test_generator.cpp (not controlled by VERIF_SEED)"
+    return {"stats": tot, "violations": violations}
 
 
 def fetch_slice(rng, tier):
